@@ -269,7 +269,7 @@ def explore(rng, transport, profile, flavor, runner_cls, max_cmds=70):
         elif pk == 'read':
             if closed:
                 do(['w', 'eof'])
-            elif fault_budget and len(srv.out) > 0 and rng.random() < 0.2 and any(b >= 0x80 for b in srv.out):
+            elif fault_budget and len(srv.out) > 0 and rng.random() < 0.2 and any((b & 0xC0) == 0x80 for b in srv.out):
                 # the peer goes away in the middle of a multi-byte character: hand over the bytes up to there, then EOF
                 i = next(k for k, b in enumerate(srv.out) if (b & 0xC0) == 0x80)
                 d = bytes(srv.out[:i])
